@@ -171,6 +171,17 @@ Theorem parse_sprintf_roundtrip_partial : forall fx resolver s tail u v, nz s ->
 Proof. exact url_parse_text_stable. Qed.
 Print Assumptions parse_sprintf_roundtrip_partial.
 
+(* today (pinned bracket scan): the accepted "tcp://[[x]" does not survive the
+   round trip -- host "[x" is printed without brackets and "tcp://[x:0" is
+   rejected; the repaired scan rejects the input *)
+Theorem bracket_host_roundtrip_refuted :
+  exists u out, url_parse (mkUflags true true true true false) no_resolver (bracket_url ++ [0]) = UVal u /\
+    url_sprintf u = Some out /\
+    url_parse (mkUflags true true true true false) no_resolver (out ++ [0]) = UErr NNG_EINVAL /\
+    url_parse fx_repaired no_resolver (bracket_url ++ [0]) = UErr NNG_EINVAL.
+Proof. exact bracket_host_witness. Qed.
+Print Assumptions bracket_host_roundtrip_refuted.
+
 (* ---- clone ------------------------------------------------------------------ *)
 
 (* the repaired clone, for every URL whose storage is the inline buffer or a
